@@ -773,10 +773,29 @@ let run_cgen toks =
       | _ -> failwith ("bad cgen op " ^ t)) toks in
   Stdlib.String.concat " " (Stdlib.List.map (fun r -> match r with None -> "-" | Some v -> string_of_n v) (CacheGen.arun CacheGen.ainit ops))
 
+(* clk <start> <code>,<x> ...  (Model.Clock, calls run alone) -> <issued>:<shard after> per op *)
+let run_clk toks =
+  match toks with
+  | start :: ops ->
+    let s = ref (Clock.kinit (n_of_string start)) in
+    Stdlib.String.concat " " (Stdlib.List.map (fun t -> match Stdlib.String.split_on_char ',' t with
+        | [c; x] ->
+          let x = n_of_string x in
+          if c = "0" then begin
+            s := Clock.next_alone !s (n_of_int 1) x;
+            let r = match (!s).Clock.k_line with Clock.MNext (_, _, r, _) :: _ -> r | _ -> N0 in
+            string_of_n r ^ ":" ^ string_of_n (!s).Clock.k_shard
+          end else begin
+            s := Clock.observe_alone !s (n_of_int 1) x;
+            "0:" ^ string_of_n (!s).Clock.k_shard
+          end
+        | _ -> failwith ("bad clk op " ^ t)) ops)
+  | _ -> failwith "bad clk case"
+
 let run_note _ = "note"
 
 let handlers : (string * (string list -> string)) list ref =
-  ref [ ("fs", run_fs); ("open", run_open); ("note", run_note); ("codec", run_codec); ("readdev", run_readdev); ("lww", run_lww); ("monitor", run_monitor); ("cache", run_cache); ("migrate", run_migrate); ("conc", run_conc); ("hist", run_hist); ("pins", run_pins); ("inflight", run_inflight); ("swp", run_swp); ("scn", run_scn); ("abuf", run_abuf); ("fp", run_fp); ("gate", run_gate); ("cgen", run_cgen) ]
+  ref [ ("fs", run_fs); ("open", run_open); ("note", run_note); ("codec", run_codec); ("readdev", run_readdev); ("lww", run_lww); ("monitor", run_monitor); ("cache", run_cache); ("migrate", run_migrate); ("conc", run_conc); ("hist", run_hist); ("pins", run_pins); ("inflight", run_inflight); ("swp", run_swp); ("scn", run_scn); ("abuf", run_abuf); ("fp", run_fp); ("gate", run_gate); ("cgen", run_cgen); ("clk", run_clk) ]
 
 
 let () =
